@@ -284,6 +284,6 @@ def compare(data, res, fmt, agg, ignore, ishape, what, conds, wsum_excl=None):
 
 
 def assert_all(eng, conds, kind):
-    if not conds:
-        return
-    eng.assert_(z3.And(*[c for _, c, _ in conds]), kind)
+    """One VC per output cell (small VCs keep the division-by-sum obligations tractable)."""
+    for _, c, where in conds:
+        eng.assert_(c, "%s [%s]" % (kind, where))
